@@ -1,6 +1,6 @@
 (* C13 property theorems. Nothing but statements closed by `exact lemma` and Print Assumptions, plus Examples. *)
 From Coq Require Import NArith List Bool.
-From OG Require Import C10.Model C10.Proofs C13.Model C13.Proofs.
+From OG Require Import C10.Model C10.Proofs C13.Model C13.Proofs C13.Tree C13.TreeLemmas C13.TreeProofs.
 Import ListNotations.
 Open Scope N_scope.
 
@@ -93,3 +93,117 @@ Example C13_example :
   snd r = 8 /\ read_repaired am (d_T (fst r)) (d_del (fst r)) 1 (Some (Atom 1 Eq 1)) = [8] /\
   read_repaired am (d_T (drop_measurement s1 1)) (d_del s1) 1 None = [].
 Proof. vm_compute. repeat split. Qed.
+
+(* =====================================================================================================================
+   THE WHOLE STATEMENT as one machine (C13/Tree.v): databases -> retention policies -> measurement incarnations -> series index
+   with deleted ids -> memtable / files; operations: create database / policy, write, DROP SERIES / MEASUREMENT / RETENTION POLICY /
+   DATABASE, flush, compaction, sync of the deleted-id table, restart.  [trun true] = an acknowledged DROP SERIES is on disk
+   (the _repaired persistence; Refuted.v refutes [trun false], today's code). *)
+
+(* refinement: after ANY operation sequence, EVERY read shape (None = plain select / field filter / group by / aggregates;
+   Some e = any tag predicate) of every (database, policy, measurement) returns exactly the rows of the reference machine -
+   the reference map the black-box oracle uses: drops filter it, flush / compaction / restart do not touch it *)
+Theorem C13_tree_refines_reference : forall am os d r n q x, Forall top_ok os -> okq q ->
+  In x (tread am (trun true am t0 os) d r n q) <-> In x (sread am (srun am s0 os) d r n q).
+Proof. exact tree_refines. Qed.
+Print Assumptions C13_tree_refines_reference.
+(* ... and so does every listing (show series; tag values / tag keys are projections of it) *)
+Theorem C13_tree_listing_refines_reference : forall am os d r n q tg, Forall top_ok os -> okq q ->
+  In tg (tlist am (trun true am t0 os) d r n q) <-> In tg (slist am (srun am s0 os) d r n q).
+Proof. exact tree_list_refines. Qed.
+Print Assumptions C13_tree_listing_refines_reference.
+
+(* each of the four drops removes exactly what it names, for every read of every location: the answer after the drop is the
+   answer before it minus the rows named ([hit]: same policy + measurement + predicate / same policy + measurement / same
+   policy / same database); everything else is unchanged *)
+Theorem C13_every_drop_removes_exactly_what_it_names : forall am ops X d r n q x,
+  Forall top_ok (ops ++ [X]) -> okq q -> is_drop X = true ->
+  In x (tread am (trun true am t0 (ops ++ [X])) d r n q) <->
+  In x (tread am (trun true am t0 ops) d r n q) /\ hit am X d r n (o_tags x) = false.
+Proof. exact drop_exact. Qed.
+Print Assumptions C13_every_drop_removes_exactly_what_it_names.
+
+(* for good, and re-creation is fresh: after a drop X and ANY later operations (writes, re-creation of the database / policy /
+   measurement / series, flushes, compactions, restarts, further drops), whatever any read returns from inside what X named was
+   written after X - it carries the stamp of a later write *)
+Theorem C13_after_a_drop_only_later_writes_are_visible_inside : forall am ops1 X ops2 d r n q x,
+  Forall top_ok (ops1 ++ X :: ops2) -> okq q ->
+  In x (tread am (trun true am t0 (ops1 ++ X :: ops2)) d r n q) -> hit am X d r n (o_tags x) = true ->
+  In (o_stamp x) (flat_map stamp_of ops2).
+Proof. exact after_drop_fresh. Qed.
+Print Assumptions C13_after_a_drop_only_later_writes_are_visible_inside.
+Theorem C13_dropped_never_reappears : forall am ops1 X ops2 d r n q x,
+  Forall top_ok (ops1 ++ X :: ops2) -> okq q ->
+  hit am X d r n (o_tags x) = true -> ~ In (o_stamp x) (flat_map stamp_of ops2) ->
+  ~ In x (tread am (trun true am t0 (ops1 ++ X :: ops2)) d r n q).
+Proof. exact dropped_never_reappears. Qed.
+Print Assumptions C13_dropped_never_reappears.
+
+(* flush, compaction, restart and the table sync, anywhere in a history, change no read at any later time *)
+Theorem C13_flush_compact_restart_invisible : forall am ops1 o ops2 d r n q x,
+  Forall top_ok (ops1 ++ o :: ops2) -> okq q -> invisible o = true ->
+  In x (tread am (trun true am t0 (ops1 ++ o :: ops2)) d r n q) <-> In x (tread am (trun true am t0 (ops1 ++ ops2)) d r n q).
+Proof. exact invisible_ops. Qed.
+Print Assumptions C13_flush_compact_restart_invisible.
+
+(* a write into an existing policy - whatever was dropped there before - is visible, with its value, to every read whose
+   predicate its tags satisfy *)
+Theorem C13_write_after_any_history_is_visible : forall am ops d r n tags t v w q,
+  Forall top_ok ops -> wf_tags tags -> okq q ->
+  kget (d, r) (t_pols (trun true am t0 ops)) <> None -> evalq am q tags = true ->
+  In (tags, t, v, w) (tread am (trun true am t0 (ops ++ [TWrite d r n tags t v w])) d r n q).
+Proof. exact write_visible. Qed.
+Print Assumptions C13_write_after_any_history_is_visible.
+
+(* non-vacuity: database 1, policy 1, measurement 5, tag host=1 with values a=1, b=2. Writes, flush, DROP SERIES host=a, a new
+   write to host=a, compaction, restart, DROP MEASUREMENT + re-creation, DROP DATABASE + re-creation. *)
+Definition ex_ops : list top :=
+  [TCreateDB 1; TCreateRP 1 1; TWrite 1 1 5 [(1, 1)] 10 7 100; TWrite 1 1 5 [(1, 2)] 10 8 101; TFlush 1 1;
+   TDropSeries 1 1 5 (Some (Atom 1 Eq 1)); TWrite 1 1 5 [(1, 1)] 11 9 102; TFlush 1 1; TCompact 1 1 0 2; TRestart 1 1].
+Example C13_tree_example :
+  let am := fun (_ _ : N) => false in
+  Forall top_ok ex_ops /\
+  (tread am (trun true am t0 ex_ops) 1 1 5 None = [([(1, 2)], 10, 8, 101); ([(1, 1)], 11, 9, 102)]) /\
+  (tlist am (trun true am t0 ex_ops) 1 1 5 None = [[(1, 2)]; [(1, 2)]; [(1, 1)]; [(1, 1)]]) /\
+  (tread am (trun true am t0 (ex_ops ++ [TDropMst 1 1 5; TWrite 1 1 5 [(1, 2)] 12 1 103])) 1 1 5 None = [([(1, 2)], 12, 1, 103)]) /\
+  (tread am (trun true am t0 (ex_ops ++ [TDropDB 1; TCreateDB 1; TCreateRP 1 1])) 1 1 5 None = []) /\
+  (tread am (trun true am t0 (ex_ops ++ [TDropRP 1 1; TCreateRP 1 1; TWrite 1 1 5 [(1, 1)] 10 3 104])) 1 1 5 None = [([(1, 1)], 10, 3, 104)]).
+Proof.
+  intros am. split.
+  - unfold ex_ops. repeat (apply Forall_cons; [simpl; try exact I |]); try apply Forall_nil.
+    all: try (split; [repeat constructor; intros [] | repeat constructor; discriminate]).
+    discriminate.
+  - vm_compute. repeat split; reflexivity.
+Qed.
+
+(* =====================================================================================================================
+   which deleted set a search consults (C13/Wiring.v; finding C13-drop-ignored-by-new-index): with a new index wired to the
+   policy's deleted-id table at creation, every index of the policy consults exactly the policy's deleted set after any history
+   of index creations, DROP SERIES statements and restarts *)
+From OG Require Import C13.Wiring C13.Purge.
+Theorem C13_every_index_consults_the_deleted_set : forall os i b,
+  In (i, b) (w_idx (wrun true w0 os)) -> eff (wrun true w0 os) b = w_del (wrun true w0 os).
+Proof. exact wired_repaired. Qed.
+Print Assumptions C13_every_index_consults_the_deleted_set.
+Example C13_wiring_example :
+  let s := wrun true w0 [WNewIndex 1; WDrop [5]; WNewIndex 2; WDrop [6]; WRestart; WNewIndex 3] in
+  w_idx s = [(1, true); (2, true); (3, true)] /\ w_del s = [5; 6].
+Proof. vm_compute. split; reflexivity. Qed.
+
+(* the physical purge of dropped series from an index part (C13/Purge.v; finding C13-purge-loses-live-items): with the item that
+   did not fit re-added after the block flush, and tag->ids rows rewritten id by id, the new part holds exactly the items of the
+   old one with exactly their ids that are not deleted, in order - for all item lists, item sizes and block capacities - and no
+   block exceeds the capacity when every single item fits *)
+Theorem C13_purge_keeps_exactly_the_live_items : forall (H : Type) (hsz : H -> N) (del : N -> bool) (cap : N) (l : list (item H)),
+  purge_repaired H hsz del cap l = purge_spec H del l.
+Proof. exact purge_repaired_exact. Qed.
+Print Assumptions C13_purge_keeps_exactly_the_live_items.
+Theorem C13_purge_blocks_fit : forall (H : Type) (hsz : H -> N) (del : N -> bool) (cap : N) (l : list (item H)),
+  (forall x y, In x l -> keep_repaired H del x = Some y -> isz H hsz y <= cap) ->
+  Forall (fun b => bsz H hsz b <= cap) (pack H hsz cap true (keep_repaired H del) l [] 0 []).
+Proof. exact purge_repaired_blocks_fit. Qed.
+Print Assumptions C13_purge_blocks_fit.
+Example C13_purge_example :
+  purge_repaired N (fun h => h) (fun i => i =? 2) 30 [(4, [1]); (4, [2]); (4, [3]); (4, [4]); (2, [1; 2; 3]); (2, [2])]
+  = [(4, [1]); (4, [3]); (4, [4]); (2, [1; 3])].
+Proof. vm_compute. reflexivity. Qed.
